@@ -180,5 +180,40 @@ def run(ck):
                     ck.violation("real GF: lowering %s[%d] decreased L0vv/Lss (min eigs %.3g %.3g)" % (arr, k, m0, ms),
                                  {"crystal": nm, "lowered": [arr, k], "delta": delta, "thermo": {a: np.asarray(v).tolist() for a, v in th.items()},
                                   "base": [b.tolist() for b in base], "new": [b.tolist() for b in new]}, key="c05-realGF")
+    # ---------------- exact tier on the pair chain: raising one omega1 / omega2 class rate gives an edgewise dominating chain --------
+    from .c07 import exact_edges
+    from .lib import coq_Z, coq_nat
+    from . import exact as _exact
+    chain_terms, chain_meta = [], []
+    for nm in (["square", "rect"] if ck.quick else ["square", "rect", "tria", "honeycomb"]):
+        crys, chem = gen.named(nm)
+        cut, sl, jn = gen.percolating_network(crys, chem, rng, maxshell=1, maxjumps=30)
+        d = vm.make(crys, chem, sl, jn, 1)
+        th = vm.random_thermo(d, rng, interact=True, dyadic=True)
+        arr = rng.choice(["preT1", "preT2"]); k = rng.randrange(len(th[arr]))
+        th2 = {a: np.array(v, dtype=float) for a, v in th.items()}; th2[arr][k] *= rng.choice([1.5, 2.0, 4.0])
+        M = vm.min_torus(d)
+        e1 = exact_edges(d, th, M); e2 = exact_edges(d, th2, M)
+        if e1 is None or e2 is None: continue
+        sc = _exact.lcm_den([e[2] for e in e1 + e2])
+        jl = coq_list(["mkJump (K:=Zring) %s %s %s []" % (coq_nat(e[0]), coq_nat(e[1]), coq_nat(n)) for n, e in enumerate(e1)]) if len(e1) < 4000 else None
+        if jl is None or any((a[0], a[1]) != (b[0], b[1]) for a, b in zip(e1, e2)): continue
+        chain_terms.append("(%s, %s, %s)" % (coq_list([coq_Z(int(e[2] * sc)) for e in e1]), coq_list([coq_Z(int(e[2] * sc)) for e in e2]), jl))
+        chain_meta.append(dict(crystal=nm, raised=[arr, k], edges=len(e1), thermo={a: np.asarray(v).tolist() for a, v in th.items()}))
+    try:
+        import re
+        res = []
+        for a in range(0, len(chain_terms), 2):
+            out = ck.coq_cases("chaindom_%d" % a, "Eval vm_compute in (map rundom %s)." % coq_list(chain_terms[a:a + 2]), DOM_IMPORTS)
+            res += re.findall(r"true|false", out[out.index("="):].split(":")[0])
+        if len(res) != len(chain_terms): raise CoqFailure("could not parse chain domination output")
+    except CoqFailure as e:
+        ck.broken_proof = "correspondence (pair-chain domination): %s" % e
+        res = []
+    for m, r in zip(chain_meta, res):
+        ck.case(key=("exact-chain", m["crystal"], m["raised"], m["thermo"]), nontrivial=True, kind="exact:pair-chain-domination",
+                sample={"tier": "exact-chain", "crystal": m["crystal"], "raised": m["raised"], "edges": m["edges"]})
+        if r != "true":
+            ck.violation("raising %s[%d] does not give an edgewise dominating pair chain (premise of C05_rayleigh for Lss)" % tuple(m["raised"]), m, key="c05-exact-chain-domination")
     ck.extra["interstitial_cases"] = nint
     ck.extra["vm_cases"] = nvm
